@@ -118,11 +118,15 @@ pub fn build_world_with_gap(coin: &'static refmodel::coins::Coin, chain: &[Block
             let raw = b.ser();
             let pos = w.place_raw(*fno, &raw, raw.len() as u32);
             let h = first_height + *bi as u64;
-            recs[*bi] = Some(IndexRec { hash: b.hash(), client_version: 270000, height: h, status: if h == 0 { VALID_SCRIPTS | HAVE_DATA } else { ACTIVE }, ntx: b.txs.len() as u64, file: *fno, data_pos: pos, undo_pos: 9, header: b.header.ser() });
+            recs[*bi] = Some(IndexRec { hash: b.hash(), client_version: 270000, height: h, status: if h == 0 { VALID_SCRIPTS | HAVE_DATA } else { ACTIVE | if h % 2 == 1 { refmodel::world::OPT_WITNESS } else { 0x100 } }, ntx: b.txs.len() as u64, file: *fno, data_pos: pos, undo_pos: 9, header: b.header.ser() });
         }
     }
     let recs: Vec<IndexRec> = recs.into_iter().map(|r| r.expect("every block placed")).collect();
     if l.junk_keys {
+        // never-connected records whose keys agree with active blocks' hashes in their first / last bytes
+        for (i, r) in recs.iter().enumerate().skip(1) {
+            w.add_key_twin(r, (i + l.label.len()) as u8);
+        }
         w.index_ops.push(IndexOp::Put(b"f\x00\x00\x00\x00".to_vec(), vec![1, 2, 3, 4, 5, 6]));
         w.index_ops.push(IndexOp::Put(b"l".to_vec(), vec![0, 0, 0, 0]));
         w.index_ops.push(IndexOp::Put(b"Ftxindex".to_vec(), vec![b'1']));
